@@ -115,7 +115,8 @@ pub enum Ev {
 
 fn attr(name: &str, content: String) -> Ev { Ev::Attr { name: name.to_owned(), raw: None, content } }
 fn unknown(a: Attribute) -> Ev {
-	let name: String = a.name.chars().map(|c| c.as_char().unwrap_or('\u{fffd}')).collect();
+	// the name as the bytes of its modified-UTF-8 form (one char per byte): that is what the pool holds and the model compares
+	let name: String = a.name.to_modified_utf8().iter().map(|&b| b as char).collect();
 	Ev::Attr { name, raw: Some(a.bytes.clone()), content: String::new() }
 }
 fn vis(visible: bool, a: &'static str, b: &'static str) -> &'static str { if visible { a } else { b } }
